@@ -756,6 +756,64 @@ func (r *Run) c04Enabled(s *mateShape) {
 	r.OK(s.name+".enabled.reset", p.Pos(firstBlockPos(s.walk.Header)), "the scratch gene is re-enabled at the start of every step")
 }
 
+// c04EvalFlagExpr evaluates a boolean SSA value under a truth assignment of the three tests the fitter-parent flag is
+// made of: "gt" (fitness1 > fitness2), "eq" (fitness1 == fitness2), "fewer" (len(g.Genes) < len(og.Genes)). Phis are
+// resolved along the path. The float tests are matched exactly (no <=/>= forms: they differ from the negated strict
+// forms on NaN); the integer length test also in its negated forms. known is false when v is not such an expression.
+func c04EvalFlagExpr(tm *Termer, ip *IterPath, v ssa.Value, a map[string]bool, depth int) (val, known bool) {
+	if depth > 20 {
+		return false, false
+	}
+	v = ip.ResolveAt(v)
+	switch x := v.(type) {
+	case *ssa.Const:
+		if IsConstBool(x, true) {
+			return true, true
+		}
+		if IsConstBool(x, false) {
+			return false, true
+		}
+	case *ssa.UnOp:
+		if x.Op == token.NOT {
+			r, k := c04EvalFlagExpr(tm, ip, x.X, a, depth+1)
+			return !r, k
+		}
+	case *ssa.BinOp:
+		l, r := tm.Of(x.X), tm.Of(x.Y)
+		f12 := isParamIdx(l, 3) && isParamIdx(r, 4)
+		f21 := isParamIdx(l, 4) && isParamIdx(r, 3)
+		n12 := l.String() == "len(recv.Genes)" && r.String() == "len(p1.Genes)"
+		n21 := l.String() == "len(p1.Genes)" && r.String() == "len(recv.Genes)"
+		switch {
+		case (x.Op == token.GTR && f12) || (x.Op == token.LSS && f21):
+			return a["gt"], true
+		case x.Op == token.EQL && (f12 || f21):
+			return a["eq"], true
+		case x.Op == token.NEQ && (f12 || f21):
+			return !a["eq"], true
+		case (x.Op == token.LSS && n12) || (x.Op == token.GTR && n21):
+			return a["fewer"], true
+		case (x.Op == token.GEQ && n12) || (x.Op == token.LEQ && n21):
+			return !a["fewer"], true
+		case (x.Op == token.AND || x.Op == token.OR) && c04IsBool(x):
+			lv, lk := c04EvalFlagExpr(tm, ip, x.X, a, depth+1)
+			rv, rk := c04EvalFlagExpr(tm, ip, x.Y, a, depth+1)
+			if lk && rk {
+				if x.Op == token.AND {
+					return lv && rv, true
+				}
+				return lv || rv, true
+			}
+		}
+	}
+	return false, false
+}
+
+func c04IsBool(v ssa.Value) bool {
+	b, ok := v.Type().Underlying().(*types.Basic)
+	return ok && b.Kind() == types.Bool
+}
+
 // c04StepTable: the fitter-parent flag and the decision table of one step (multipoint methods).
 func (r *Run) c04StepTable(s *mateShape) {
 	p, tm := r.P, s.tm
@@ -794,62 +852,64 @@ func (r *Run) c04StepTable(s *mateShape) {
 	}
 	// definition of the flag
 	root := pb.Block().Idom()
-	dpaths, _ := EnumRegionPaths(s.fn, root, func(b *ssa.BasicBlock) bool { return b == pb.Block() }, 200)
+	dpaths, dcomplete := EnumRegionPaths(s.fn, root, func(b *ssa.BasicBlock) bool { return b == pb.Block() }, 200)
 	okDef, nDef := true, 0
 	var why string
 	for _, ip := range dpaths {
-		if ip.End != "stop" {
-			continue
-		}
-		nDef++
-		c := map[string]int{} // 1 true, -1 false
-		for _, g := range ip.Conds {
-			b, ok := g.Cond.(*ssa.BinOp)
-			if !ok {
-				continue
-			}
-			x, y := tm.Of(b.X), tm.Of(b.Y)
-			val := -1
-			if g.True {
-				val = 1
-			}
-			switch {
-			case b.Op == token.GTR && isParamIdx(x, 3) && isParamIdx(y, 4), b.Op == token.LSS && isParamIdx(x, 4) && isParamIdx(y, 3):
-				c["gt"] = val
-			case b.Op == token.EQL && ((isParamIdx(x, 3) && isParamIdx(y, 4)) || (isParamIdx(x, 4) && isParamIdx(y, 3))):
-				c["eq"] = val
-			case b.Op == token.LSS && x.String() == "len(recv.Genes)" && y.String() == "len(p1.Genes)", b.Op == token.GTR && x.String() == "len(p1.Genes)" && y.String() == "len(recv.Genes)":
-				c["fewer"] = val
-			}
-		}
-		// three-valued (gt || (eq && fewer))
-		and := 0
-		switch {
-		case c["eq"] == -1 || c["fewer"] == -1:
-			and = -1
-		case c["eq"] == 1 && c["fewer"] == 1:
-			and = 1
-		}
-		exp := 0
-		switch {
-		case c["gt"] == 1 || and == 1:
-			exp = 1
-		case c["gt"] == -1 && and == -1:
-			exp = -1
-		}
-		v := ip.ResolveAt(pb)
-		got := 0
-		if IsConstBool(v, true) {
-			got = 1
-		} else if IsConstBool(v, false) {
-			got = -1
-		}
-		if exp == 0 || got != exp {
-			okDef = false
-			why = fmt.Sprintf("on the path with f1>f2=%d, f1==f2=%d, fewer genes=%d (1 true, -1 false, 0 not tested) the flag is %d, expected %d (0 = not determined by these tests)", c["gt"], c["eq"], c["fewer"], got, exp)
+		switch ip.End {
+		case "stop":
+			nDef++
+		case "cycle":
+			okDef, why = false, "the computation of the flag contains a loop"
 		}
 	}
-	r.Check(okDef && nDef >= 3, s.name+".p1better.definition", p.Pos(pb.Pos()), "first parent is fitter iff f1 > f2, or f1 == f2 and it has fewer genes", "the fitter-parent flag is not (fitness1 > fitness2) || (fitness1 == fitness2 && len(g.Genes) < len(og.Genes)): "+why)
+	if !dcomplete {
+		okDef, why = false, "too many paths through the computation of the flag"
+	}
+	// The flag must equal gt || (eq && fewer) as a boolean function of the three tests. Every truth assignment of the
+	// tests (f1 > f2 and f1 == f2 cannot both hold) is checked against every path it admits: a branch outcome on the path
+	// that is one of the tests (or a negation of one) must agree with the assignment, other branch outcomes admit both
+	// ways; the value the flag has at the end of the path - a constant, or itself an expression over the tests - must
+	// then evaluate to the expected value.
+	for asg := 0; asg < 8 && okDef; asg++ {
+		a := map[string]bool{"gt": asg&1 != 0, "eq": asg&2 != 0, "fewer": asg&4 != 0}
+		if a["gt"] && a["eq"] {
+			continue
+		}
+		exp := a["gt"] || (a["eq"] && a["fewer"])
+		admitted := 0
+		for _, ip := range dpaths {
+			if ip.End != "stop" {
+				continue
+			}
+			consistent := true
+			for _, g := range ip.Conds {
+				if v, known := c04EvalFlagExpr(tm, ip, g.Cond, a, 0); known && v != g.True {
+					consistent = false
+					break
+				}
+			}
+			if !consistent {
+				continue
+			}
+			admitted++
+			got, known := c04EvalFlagExpr(tm, ip, pb, a, 0)
+			if !known || got != exp {
+				okDef = false
+				gs := "not determined by these tests (" + tm.Of(ip.ResolveAt(pb)).String() + ")"
+				if known {
+					gs = fmt.Sprint(got)
+				}
+				why = fmt.Sprintf("with f1>f2=%v, f1==f2=%v, fewer genes=%v there is a path on which the flag is %s, expected %v", a["gt"], a["eq"], a["fewer"], gs, exp)
+				break
+			}
+		}
+		if admitted == 0 && okDef {
+			okDef = false
+			why = fmt.Sprintf("no path computes the flag for f1>f2=%v, f1==f2=%v, fewer genes=%v", a["gt"], a["eq"], a["fewer"])
+		}
+	}
+	r.Check(okDef && nDef >= 1, s.name+".p1better.definition", p.Pos(pb.Pos()), "first parent is fitter iff f1 > f2, or f1 == f2 and it has fewer genes", "the fitter-parent flag is not (fitness1 > fitness2) || (fitness1 == fitness2 && len(g.Genes) < len(og.Genes)): "+why)
 	// decision table
 	stop := s.skip1.Block()
 	paths, complete := EnumRegionPaths(s.fn, s.walk.Header, func(b *ssa.BasicBlock) bool { return b == stop }, 4000)
